@@ -33,7 +33,7 @@ def lit(text):
 class Line(object):
     """rendered template line"""
     def __init__(self, kind, pieces, geo, text, nwords=0, maxword=0, maxpad=0, opens=0):
-        self.kind, self.pieces, self.geo, self.text = kind, pieces, geo, text   # geo = (lead, trimmed length, copy offset, copy length)
+        self.kind, self.pieces, self.geo, self.text = kind, pieces, geo, text   # geo = (lead, trimmed length, copy offset, copy length, alternative copy length)
         self.nwords, self.maxword, self.maxpad, self.opens = nwords, maxword, maxpad, opens
         self.nsym = sum(1 for p in pieces if -1000 < p <= -100)
         self.length = sum(1 for p in pieces if p >= 0 or p <= -100)
@@ -71,7 +71,7 @@ def word(style, content, first_cls=None):
     return ps
 
 
-def directive(kind, words, lead=0, seps=None, gtpad=0, ltpad=0, trail=0, eol='\n'):
+def directive(kind, words, lead=0, seps=None, gtpad=0, lt='', trail=0, eol='\n'):
     """kind opt|open|close; words = [(style, content), ...] (first = name, must be bare)"""
     seps = seps or [1] * (len(words) - 1)
     ps = [S('PAD')] * lead
@@ -80,13 +80,13 @@ def directive(kind, words, lead=0, seps=None, gtpad=0, ltpad=0, trail=0, eol='\n
         body += lit('<')
     elif kind == 'close':
         body += lit('</')
-    body += [S('PAD')] * ltpad
+    body += lit(lt)          # blanks after the bracket are literals: the byte after '<' decides the line kind
     for i, (st, ct) in enumerate(words):
         if i > 0:
             body += [S('PAD')] * seps[i - 1]
         fc = None
         if i == 0:
-            fc = 'NAME1' if kind == 'opt' else ('NAME1S' if kind == 'open' and ltpad == 0 else 'BARE')
+            fc = 'NAME1' if kind == 'opt' else ('NAME1S' if kind == 'open' and not lt else 'BARE')
         body += word(st, ct, fc)
     if kind != 'opt':
         body += [S('PAD')] * gtpad + lit('>')
@@ -98,18 +98,19 @@ def directive(kind, words, lead=0, seps=None, gtpad=0, ltpad=0, trail=0, eol='\n
     rawlens = []
     for st, ct in words:
         rawlens.append(len(ct) + ct.count('e') + (0 if st == 'b' else 2))
-    return Line(K[kind], ps, (lead, content_len, front, content_len - front - back), text, nwords=len(words), maxword=max(rawlens), maxpad=max([lead, trail, gtpad, ltpad] + seps + [1]),
+    return Line(K[kind], ps, (lead, content_len, front, content_len - front - back, content_len - front - back - gtpad if gtpad else -1), text, nwords=len(words) + (1 if gtpad else 0),
+                maxword=max(rawlens), maxpad=max([lead, trail, gtpad, len(lt)] + seps + [1]),
                 opens=1 if kind == 'open' else 0)
 
 
 def blank(npad=0, eol='\n'):
     ps = [S('PAD')] * npad + lit(eol)
-    return Line(K['blank'], ps, (npad, 0, 0, -1), ''.join(_show(p) for p in ps), maxpad=npad)
+    return Line(K['blank'], ps, (npad, 0, 0, -1, -1), ''.join(_show(p) for p in ps), maxpad=npad)
 
 
 def comment(n=1, lead=0, eol='\n'):
     ps = [S('PAD')] * lead + lit('#') + [S('CMT')] * max(n - 1, 0) + [S('CMTE')] * min(n, 1) + lit(eol)
-    return Line(K['comment'], ps, (lead, n + 1, 0, -1), ''.join(_show(p) for p in ps), maxpad=lead)
+    return Line(K['comment'], ps, (lead, n + 1, 0, -1, -1), ''.join(_show(p) for p in ps), maxpad=lead)
 
 
 def raw(prefix, nany, suffix, copy, eol='\n', lead=0, trail=0, opens=0, mid=None):
@@ -118,7 +119,16 @@ def raw(prefix, nany, suffix, copy, eol='\n', lead=0, trail=0, opens=0, mid=None
     trimmed length - hence the size of the line copy - is a constant of the query."""
     ps = [S('PAD')] * lead + lit(prefix) + (mid if mid is not None else [S('ANY')] * nany) + lit(suffix) + [S('PAD')] * trail + lit(eol)
     n = len(prefix) + (len(mid) if mid is not None else nany) + len(suffix)
-    return Line(K['raw'], ps, (lead, n, copy[0], copy[1]), ''.join(_show(p) for p in ps), nwords=(n + 1) // 2 + 1, maxword=n, maxpad=max(n, lead, trail), opens=opens)
+    return Line(K['raw'], ps, (lead, n, copy[0], copy[1], -1), ''.join(_show(p) for p in ps), nwords=(n + 1) // 2 + 1, maxword=n, maxpad=max(n, lead, trail), opens=opens)
+
+
+# call sites through function pointers get their exact target sets (goto-instrument --restrict-function-pointer);
+# otherwise CBMC tries every function with a compatible signature at each callback (addoptions() among them)
+FPTR = [('_parse_inline', 1, 'vf_strcmp,vf_strcasecmp'), ('_parse_inline', 2, 'vf_strcmp,vf_strcasecmp'),
+        ('_parse_inline', 3, 'vf_cb,vf_defcb'), ('_parse_inline', 4, 'vf_cb,vf_defcb'), ('_parse_inline', 5, 'vf_defcb'),
+        ('vf_harness', 1, 'addoptions'), ('vf_harness', 2, 'setdefhandler'), ('vf_harness', 3, 'setuserdata'), ('vf_harness', 4, 'parse'),
+        ('vf_harness', 5, 'errmsg'), ('vf_harness', 6, 'free_')]
+INSTRUMENT = [sum([['--restrict-function-pointer', '%s.function_pointer_call.%d/%s' % t] for t in FPTR], [])]
 
 
 def cinit(rows, width):
@@ -134,7 +144,7 @@ def mk(cid, mode, lines, nopt=1, namelen=1, maxw=2, desc='', timeout=600, extra=
     maxwords = max([l.nwords for l in lines] + [1])
     d = {'VF_MODE': 17 if mode == 'c17' else 20, 'VF_NLINES': len(lines), 'VF_TPLMAX': width, 'VF_NSYM': max(nsym, 1),
          'VF_TPL': cinit([l.pieces for l in lines], width), 'VF_KINDS': '{' + ','.join(str(l.kind) for l in lines) + '}',
-         'VF_GEO': '{' + ','.join('{%d,%d,%d,%d}' % tuple(l.geo) for l in lines) + '}', 'VF_NOPT': nopt, 'VF_NAMELEN': namelen, 'VF_MAXW': maxw,
+         'VF_GEO': '{' + ','.join('{%d,%d,%d,%d,%d}' % tuple(l.geo) for l in lines) + '}', 'VF_NOPT': nopt, 'VF_NAMELEN': namelen, 'VF_MAXW': maxw,
          'VF_MAXWORDS': max(3, maxwords if mode == 'c20' else 3), 'QLIBC_VERIF_MAX_LINESIZE': LINESIZE}
     if cut:
         d['VF_CUT'] = None
@@ -151,14 +161,183 @@ def mk(cid, mode, lines, nopt=1, namelen=1, maxw=2, desc='', timeout=600, extra=
           'vf_print_document.0': width + 1, 'vf_print_document.1': nl + 1}  # inner loop has the lower id
     doc = ' | '.join(l.text for l in lines)
     return Case(cid, 'aconf.c', d, unwind=maxlen + 3, unwindset=uw, checks='safety' if mode == 'c17' else 'func',
-                safety_owner='C17' if mode == 'c17' else 'C20', unwind_owner='C17' if mode == 'c17' else 'C20', timeout=timeout, funcs=FUNCS, object_bits=10,
+                safety_owner='C17' if mode == 'c17' else 'C20', unwind_owner='C17' if mode == 'c17' else 'C20', timeout=timeout, funcs=FUNCS, object_bits=10, instrument=INSTRUMENT,
                 desc=(desc + ' ' if desc else '') + 'template: ' + doc +
                 ' (_ blank byte, n/x name/argument byte, e escaped byte, c comment byte, ?/! arbitrary byte of the alphabet / non-blank)')
 
 
-def cases(tier, mode):
+ALPHA = ['a', '1', '"', "'", '\\', ' ', '\t', '<', '>', '/', '#']      # the syntactically significant bytes (VF class CL_ANY)
+NAMES = {'"': 'dq', "'": 'sq', '\\': 'bs', ' ': 'sp', '\t': 'tab', '<': 'lt', '>': 'gt', '/': 'sl', '#': 'hash', 'a': 'a', '1': '1', '': 'none'}
+
+
+def nm(text):
+    return '-'.join(NAMES.get(ch, ch) for ch in text) if text else 'none'
+
+
+def raw_plain(first, nany, last_sym=True, **kw):
+    """line not starting with '<' or '#': literal first byte, nany arbitrary bytes, one arbitrary non-blank last byte"""
+    mid = [S('ANY')] * nany + ([S('NWS')] if last_sym else [])
+    n = len(first) + len(mid)
+    return raw(first, 0, '', (0, n), mid=mid, **kw)
+
+
+def raw_bracket(second, nany, last='>', **kw):
+    """'<' second-byte(literal) arbitrary* last(literal).  The byte after '<' decides open/close, the last byte decides
+    whether the bracket is complete: both are template constants."""
+    n = 1 + len(second) + nany + len(last)
+    if last != '>':
+        copy = (0, -1)                       # "Missing closing bracket": no copy is made
+        opens = 0
+    else:
+        front = 2 if second[:1] == '/' else 1
+        copy = (front, n - front - 1)
+        opens = 0 if second[:1] == '/' else 1
+    return raw('<' + second, nany, last, copy, opens=opens, **kw)
+
+
+def c17_cases(tier):
     out = []
+    q = tier == 'quick'
+
+    def add(name, lines, nopt=1, cut=False, timeout=600):
+        out.append(mk('c17.aconf.' + name + ('.cut' if cut else ''), 'c17', lines, nopt=nopt, cut=cut, timeout=timeout,
+                      desc='safety+termination%s;' % (' up to the first error report' if cut else '')))
+    # ---- one line
+    for first in ['a', '"', "'", '\\', '>', '/']:
+        add('l1.plain.%s.n0' % nm(first), [raw_plain(first, 0, last_sym=False)])
+        for n in ([0, 1] if q else [0, 1, 2, 3]):
+            add('l1.plain.%s.n%d' % (nm(first), n + 1), [raw_plain(first, n)])
+    for second in (['a', '/', '"', ' '] if q else [c for c in ALPHA if c != '>']):
+        for n in ([0, 1] if q else [0, 1, 2]):
+            add('l1.bracket.%s.n%d' % (nm(second), n), [raw_bracket(second, n)])
+    add('l1.bracket.empty', [raw_bracket('', 0)])
+    add('l1.bracket.gtgt', [raw_bracket('>', 0)])
+    for second, n, last in [('', 0, ''), ('a', 0, ''), ('/', 1, 'a'), ('a', 1, '"')]:
+        add('l1.nobracket.%s.n%d.%s' % (nm(second), n, nm(last)), [raw_bracket(second, n, last=last)])
+    add('l1.comment', [comment(2)])
+    add('l1.blank', [blank(2)])
+    add('l1.plain.a.n2.noeol', [raw_plain('a', 1, eol='')])
+    add('l1.plain.a.n2.crlf', [raw_plain('a', 1, eol='\r\n', lead=1, trail=1)])
+    add('l1.plain.a.n1.nopt2', [raw_plain('a', 0)], nopt=2)
+    if q:
+        return out
+    # ---- two lines (thorough)
+    for first in ['a', '"']:
+        for f2 in ['a', "'", '\\']:
+            add('l2.plain.%s.%s' % (nm(first), nm(f2)), [raw_plain(first, 1), raw_plain(f2, 1)])
+    add('l2.comment.plain', [comment(1), raw_plain('a', 1)])
+    add('l2.blank.plain', [blank(1), raw_plain('a', 1)])
+    # section: open line, then something (all paths end in an error: unclosed) - complete executions
+    for n in [0, 1]:
+        add('l2.open.plain.n%d' % n, [raw_bracket('a', n), raw_plain('a', 1)])
+        add('l2.open.open.n%d' % n, [raw_bracket('a', n), raw_bracket('a', 0)])
+    # section open + close: executions up to the first error report (see VF_CUT in the harness)
+    for n in [0, 1]:
+        for m in [1, 2]:
+            add('l2.open.close.n%d.m%d' % (n, m), [raw_bracket('a', n), raw_bracket('/', m)], cut=True)
+    add('l3.open.plain.close', [raw_bracket('a', 0), raw_plain('a', 1), raw_bracket('/', 1)], cut=True)
     return out
+
+
+ARGS1Q = [('b', 'x'), ('b', 'xx'), ('s', ''), ('s', 'x'), ('s', 'xx'), ('d', 'x'), ('d', 'e'), ('d', 'xe'), ('s', 'ex')]
+ARGS1T = [('b', 'x'), ('b', 'xx'), ('s', ''), ('s', 'x'), ('s', 'xx'), ('s', 'e'), ('s', 'xe'), ('s', 'ex'), ('s', 'ee'),
+          ('d', ''), ('d', 'x'), ('d', 'xx'), ('d', 'e'), ('d', 'xe'), ('d', 'ex'), ('d', 'ee')]
+
+
+def wn(w):
+    return w[0] + (w[1] or '0')
+
+
+def c20_cases(tier):
+    out = []
+    q = tier == 'quick'
+    D = directive
+
+    def add(name, lines, nopt=1, cut=False, timeout=600, namelen=1, maxw=2, desc=''):
+        out.append(mk('c20.aconf.' + name + ('.cut' if cut else ''), 'c20', lines, nopt=nopt, cut=cut, timeout=timeout, namelen=namelen, maxw=maxw,
+                      desc=(desc + ' ' if desc else '') + ('functional, executions up to the first error report;' if cut else 'functional, complete executions;')))
+    N = ('b', 'a')           # directive name: literal first byte keeps the line kind a constant of the query
+    # ---- one option line: argument count x quoting style x escapes
+    add('opt.args0', [D('opt', [N])])
+    add('opt.args0.nopt2', [D('opt', [N])], nopt=2)
+    add('opt.args0.nopt3', [D('opt', [N])], nopt=3)
+    for w in (ARGS1Q if q else ARGS1T):
+        add('opt.args1.%s' % wn(w), [D('opt', [N, w])])
+    pairs = [(('b', 'x'), ('b', 'x')), (('b', 'xx'), ('d', 'x')), (('s', 'xe'), ('b', 'x')), (('d', 'x'), ('s', 'x'))] if q else \
+        [(w1, w2) for w1 in ARGS1T for w2 in ARGS1T if len(w1[1]) + len(w2[1]) <= 3]
+    for w1, w2 in pairs:
+        add('opt.args2.%s.%s' % (wn(w1), wn(w2)), [D('opt', [N, w1, w2])])
+    add('opt.args1.bx.nopt2', [D('opt', [N, ('b', 'x')])], nopt=2)
+    add('opt.args1.bx.name2', [D('opt', [('b', 'ax'), ('b', 'x')])], namelen=2)
+    if not q:
+        add('opt.args1.bx.nopt3', [D('opt', [N, ('b', 'x')])], nopt=3)
+        add('opt.args2.bx.bx.nopt2', [D('opt', [N, ('b', 'x'), ('b', 'x')])], nopt=2)
+        add('opt.args3.bx.bx.bx', [D('opt', [N, ('b', 'x'), ('b', 'x'), ('b', 'x')])])
+        add('opt.args1.dxe.name2.nopt2', [D('opt', [('b', 'ax'), ('d', 'xe')])], namelen=2, nopt=2)
+    # layout: indentation, wide separators, trailing blanks, line endings
+    add('opt.layout.lead1', [D('opt', [N, ('b', 'x')], lead=1)])
+    add('opt.layout.trail1', [D('opt', [N, ('b', 'x')], trail=1)])
+    add('opt.layout.sep2', [D('opt', [N, ('b', 'x')], seps=[2])])
+    add('opt.layout.crlf', [D('opt', [N, ('b', 'x')], eol='\r\n')])
+    add('opt.layout.noeol', [D('opt', [N, ('d', 'x')], eol='')])
+    if not q:
+        add('opt.layout.lead2.sep2.trail2', [D('opt', [N, ('s', 'x'), ('b', 'x')], lead=2, seps=[2, 2], trail=2)])
+        add('opt.layout.lead1.q', [D('opt', [N, ('d', 'xe')], lead=1, trail=1, eol='\r\n')])
+    # ---- booleans: every spelling length
+    for n in range(1, 6):
+        add('bool.b%d' % n, [D('opt', [N, ('b', 'x' * n)])], maxw=5, desc='boolean spellings of length %d (any case) and near misses;' % n)
+    add('bool.d2', [D('opt', [N, ('d', 'xx')])], maxw=5)
+    add('bool.s3', [D('opt', [N, ('s', 'xxx')])], maxw=5)
+    if not q:
+        add('bool.b2.b3', [D('opt', [N, ('b', 'xx'), ('b', 'xxx')])], maxw=5)
+        add('bool.b5.nopt2', [D('opt', [N, ('b', 'xxxxx')])], maxw=5, nopt=2)
+    # ---- comments, blank lines, several options
+    add('doc.comment.opt', [comment(2), D('opt', [N, ('b', 'x')])])
+    add('doc.blank.opt', [blank(1), D('opt', [N, ('b', 'x')])])
+    add('doc.opt.comment', [D('opt', [N, ('b', 'x')]), comment(1, lead=1)])
+    add('doc.opt.opt', [D('opt', [N, ('b', 'x')]), D('opt', [N])], nopt=2)
+    add('doc.comment', [comment(2)])
+    add('doc.blank', [blank(2)])
+    if not q:
+        add('doc.opt.opt.opt', [D('opt', [N, ('b', 'x')]), D('opt', [N, ('d', 'x')]), D('opt', [N])], nopt=2)
+        add('doc.opt.blank.opt', [D('opt', [N]), blank(0), D('opt', [N, ('s', 'x')])], nopt=2)
+    # ---- sections
+    C = ('b', 'x')           # name in a closing tag: fully symbolic
+    add('sec.close.stray', [D('close', [C])])
+    add('sec.opt.close.stray', [D('opt', [N]), D('close', [C])])
+    add('sec.open.unclosed', [D('open', [N])])
+    add('sec.open.arg.unclosed', [D('open', [N, ('d', 'x')])])
+    add('sec.open.opt.unclosed', [D('open', [N]), D('opt', [N, ('b', 'x')])], nopt=2)
+    add('sec.open.close', [D('open', [N]), D('close', [C])], cut=True)
+    add('sec.open.arg.close', [D('open', [N, ('b', 'x')]), D('close', [C])], cut=True)
+    add('sec.open.arg.close.nopt2', [D('open', [N, ('d', 'x')]), D('close', [C])], cut=True, nopt=2)
+    add('sec.open.opt.close', [D('open', [N]), D('opt', [N, ('b', 'x')]), D('close', [C])], cut=True, nopt=2)
+    add('sec.open.close.opt', [D('open', [N]), D('close', [C]), D('opt', [N, ('b', 'x')])], cut=True, nopt=2)
+    if not q:
+        add('sec.open.open.unclosed', [D('open', [N]), D('open', [N])], nopt=2)
+        add('sec.opt.open.close', [D('opt', [N, ('b', 'x')]), D('open', [N, ('s', 'x')]), D('close', [C])], cut=True, nopt=2)
+        add('sec.open.args2.close', [D('open', [N, ('b', 'x'), ('d', 'xe')]), D('close', [C])], cut=True)
+        add('sec.open.comment.close', [D('open', [N, ('b', 'x')]), comment(1), D('close', [C])], cut=True)
+        add('sec.open.blank.close', [D('open', [N, ('b', 'x')]), blank(1), D('close', [C])], cut=True)
+        add('sec.open.opt.close.nopt3', [D('open', [N, ('b', 'x')]), D('opt', [N, ('b', 'x')]), D('close', [C])], cut=True, nopt=3)
+        add('sec.open.open.close.close', [D('open', [N]), D('open', [N, ('b', 'x')]), D('close', [C]), D('close', [C])], cut=True, nopt=2)
+        add('sec.open.close.name2', [D('open', [('b', 'ax')]), D('close', [('b', 'xx')])], cut=True, namelen=2)
+        add('sec.layout.lt', [D('open', [N, ('b', 'x')], lt=' ', lead=1), D('close', [C], lt='\t', lead=1)], cut=True)
+    # blanks before '>' (own cases: see the finding in the report)
+    add('gtpad.open.b.1', [D('open', [N, ('b', 'x')], gtpad=1), D('close', [C])], cut=True)
+    add('gtpad.open.d.1', [D('open', [N, ('d', 'x')], gtpad=1), D('close', [C])], cut=True)
+    if not q:
+        add('gtpad.open.b.2', [D('open', [N, ('b', 'x')], gtpad=2), D('close', [C])], cut=True)
+        add('gtpad.close.1', [D('open', [N]), D('close', [C], gtpad=1)], cut=True)
+    return out
+
+
+def cases(tier, mode):
+    if mode == 'c17':
+        return c17_cases(tier)
+    if mode == 'c20':
+        return c20_cases(tier)
+    return []
 
 
 def info(tier):
